@@ -7,6 +7,7 @@ package main
 import (
 	"fmt"
 	"math/rand"
+	"strings"
 )
 
 type Profile struct {
@@ -96,19 +97,22 @@ func NewGen(seed int64, p *Profile) *Gen {
 		g.colls = append(g.colls, names[perm[i]])
 	}
 	n := p.MaxDocs
-	if n > len(uuidPool) {
-		n = len(uuidPool)
+	pool := append([]string{}, uuidPool...)
+	for i := 0; len(pool) < n; i++ {
+		pool = append(pool, bulkId(i+1))
 	}
-	perm = g.r.Perm(len(uuidPool))
+	perm = g.r.Perm(len(pool))
 	for i := 0; i < n; i++ {
-		g.ids = append(g.ids, uuidPool[perm[i]])
+		g.ids = append(g.ids, pool[perm[i]])
 	}
 	for ord, e := range g.U.nums {
 		if e.i != nil && *e.i >= 0 && *e.i <= 10 {
 			g.smallN = append(g.smallN, ord)
 		}
 	}
-	if len(g.smallN) == 0 {
+	if len(g.smallN) == 0 || p.NumTable != "general" {
+		// boundary tables: every entry is a "usual" value
+		g.smallN = nil
 		for ord := range g.U.nums {
 			g.smallN = append(g.smallN, ord)
 		}
@@ -179,6 +183,9 @@ func (g *Gen) fieldValue(f string) V {
 	depth := 1
 	if g.P.Rich {
 		depth = 4
+	}
+	if g.chance(0.08) {
+		return ANil() // present, explicitly nil
 	}
 	if g.chance(0.12) {
 		return g.value(depth)
@@ -301,6 +308,9 @@ func (g *Gen) operand(f string) []interface{} {
 	if f == "missing" || f == "x.y" || g.chance(0.1) {
 		v = g.value(1)
 	}
+	if g.chance(0.07) {
+		v = ANil() // nil bounds are a planner corner of their own
+	}
 	if f == "_id" {
 		v = AStr(g.pick(g.ids))
 	}
@@ -405,18 +415,49 @@ func (g *Gen) crit(depth int) []interface{} {
 	if depth == 0 || g.chance(0.45) {
 		c := g.leaf()
 		if g.chance(0.15) {
-			return []interface{}{"not", c}
+			c = []interface{}{"not", c}
+			for g.chance(0.35) {
+				c = []interface{}{"not", c}
+			}
 		}
 		return c
 	}
 	k := g.r.Intn(10)
 	switch {
+	case k < 2:
+		// two or three bounds on the same (preferably indexed) field: the planner intersects their ranges
+		f := g.leafField()
+		cmp := func() []interface{} {
+			op := []string{"eq", "gt", "gte", "lt", "lte", "lt", "gt"}[g.r.Intn(7)]
+			o := g.operand(f)
+			if g.chance(0.15) {
+				o = []interface{}{"lit", ANil()}
+			}
+			c := []interface{}{"un", op, B(f), o}
+			if g.chance(0.15) {
+				return []interface{}{"not", c}
+			}
+			return c
+		}
+		c := []interface{}{"and", cmp(), cmp()}
+		if g.chance(0.3) {
+			c = []interface{}{"and", c, cmp()}
+		}
+		if g.chance(0.3) {
+			c = []interface{}{"and", g.crit(depth - 1), c}
+		}
+		return c
 	case k < 4:
 		return []interface{}{"and", g.crit(depth - 1), g.crit(depth - 1)}
 	case k < 8:
 		return []interface{}{"or", g.crit(depth - 1), g.crit(depth - 1)}
 	default:
-		return []interface{}{"not", g.crit(depth - 1)}
+		// chains of negations: the planner only pushes some of them down
+		c := []interface{}{"not", g.crit(depth - 1)}
+		for g.chance(0.4) {
+			c = []interface{}{"not", c}
+		}
+		return c
 	}
 }
 
@@ -481,9 +522,32 @@ func (g *Gen) query(total bool) []interface{} {
 
 // ---------------------------------------------------------------- updaters
 
+// relatedPath: an indexed field itself, one of its sub-paths, or its parent - writes there must
+// keep the index exact
+func (g *Gen) relatedPath(def string) string {
+	if len(g.focus) == 0 || g.chance(0.45) {
+		return def
+	}
+	f := g.pick(g.focus)
+	if f == "_id" || f == "missing" {
+		return def
+	}
+	switch g.r.Intn(4) {
+	case 0:
+		return f + "." + g.pick([]string{"a", "b", "q"})
+	case 1:
+		for i := len(f) - 1; i > 0; i-- {
+			if f[i] == '.' {
+				return f[:i]
+			}
+		}
+	}
+	return f
+}
+
 func (g *Gen) updater(bulk bool) []interface{} {
 	k := g.r.Intn(100)
-	path := g.pick([]string{"x", "xy", "s", "n.a", "n", "k", "arr", "new", "t", "x.y"})
+	path := g.relatedPath(g.pick([]string{"x", "xy", "s", "n.a", "n", "k", "arr", "new", "t", "x.y"}))
 	switch {
 	case k < 30:
 		return []interface{}{"set", B(path), g.fieldValue(path)}
@@ -515,8 +579,20 @@ func (g *Gen) updateMap() []interface{} {
 	paths := []string{"x", "xy", "s", "n.a", "k", "arr", "new"}
 	perm := g.r.Perm(len(paths))
 	n := 1 + g.r.Intn(2)
+	used := []string{"u"}
 	for i := 0; i < n; i++ {
-		p := paths[perm[i]]
+		p := g.relatedPath(paths[perm[i]])
+		// the keys of one update map must not overlap (Go map iteration order would decide)
+		clash := false
+		for _, q := range used {
+			if p == q || strings.HasPrefix(p, q+".") || strings.HasPrefix(q, p+".") {
+				clash = true
+			}
+		}
+		if clash {
+			continue
+		}
+		used = append(used, p)
 		pairs = append(pairs, []interface{}{B(p), g.fieldValue(p)})
 	}
 	return []interface{}{"setall", pairs}
@@ -569,6 +645,9 @@ func (g *Gen) event(op string) E {
 		n := 1
 		if op == "Insert" {
 			n = []int{0, 1, 1, 2, 3, 4}[g.r.Intn(6)]
+			if g.P.MaxDocs > 20 {
+				n = 4 + g.r.Intn(8)
+			}
 		}
 		docs := make([]interface{}, 0)
 		free := g.freeIds(c)
@@ -641,7 +720,7 @@ func (g *Gen) event(op string) E {
 		}
 		return E{"op": op, "c": c, "id": B(id)}
 	case "CreateIndex":
-		pool := []string{"x", "xy", "s", "n.a", "n", "t", "k", "arr", "b", "z", "missing", "_id"}
+		pool := []string{"x", "xy", "s", "n.a", "n", "n", "t", "k", "arr", "arr", "b", "z", "missing", "_id"}
 		if g.P.IdxPool != nil {
 			pool = g.P.IdxPool
 		}
